@@ -122,19 +122,22 @@ class Builder:
             self.op(op="feed", b=fr)
 
     def preamble(self, raising_sub=False, blocking=False, sending_sub=False):
+        self.preamble_subs(sending=sending_sub)
+        if raising_sub:
+            self.op(op="sub", who="r", kind="message", raises=True)
+            self.op(op="sub", who="rc", kind="connection", raises=True)
+        self.call("open_socket")
+
+    def preamble_subs(self, sending=False):
         self.op(op="sub", who="m", kind="message")
         self.op(op="sub", who="c", kind="connection")
-        if sending_sub:
+        if sending:
             # a connection subscriber that submits a request whenever the link comes up (as the API layer does)
             m = {"k": "AcControlMessage", "ac_number": 0, "power": "TURN_OFF", "mode": "UNCHANGED", "fan_speed": "QUIET",
                  "set_point_control": []} if self.proto == "at4" else \
                 {"k": "ControlStatusMessage", "sub_message": {"k": "AcControlMessage", "ac_control": [
                     {"k": "AcControlData", "ac_number": 0, "power": "TURN_OFF", "mode": "UNCHANGED", "fan_speed": "QUIET", "set_point": []}]}}
             self.op(op="sub", who="cs", kind="connection", sends={"msg": m, "policy": POL_CONN})
-        if raising_sub:
-            self.op(op="sub", who="r", kind="message", raises=True)
-            self.op(op="sub", who="rc", kind="connection", raises=True)
-        self.call("open_socket")
 
     def heal(self):
         self.op(op="quiesce")
